@@ -1013,7 +1013,7 @@ func preloadFile(p *gogen.Package, ctx *blockCtx, f *ast.File, goFile string, ge
 			setNamesLoader(parent, syms, vSpec.Names, func() {
 				if c := cdecl; c != nil {
 					cdecl = nil
-					loadConstSpecs(ctx, c, d.Specs)
+					loadConstSpecs(ctx, c, d.Specs, pkg.Types.Scope())
 					for _, s := range d.Specs {
 						v := s.(*ast.ValueSpec)
 						removeNames(syms, v.Names)
@@ -1551,14 +1551,16 @@ func loadImport(ctx *blockCtx, spec *ast.ImportSpec) {
 	ctx.imports[name] = pkgImp{pkg, pkgName}
 }
 
-func loadConstSpecs(ctx *blockCtx, cdecl *gogen.ConstDefs, specs []ast.Spec) {
+func loadConstSpecs(ctx *blockCtx, cdecl *gogen.ConstDefs, specs []ast.Spec, scope *types.Scope) {
 	for iotav, spec := range specs {
 		vSpec := spec.(*ast.ValueSpec)
-		loadConsts(ctx, cdecl, vSpec, iotav)
+		loadConsts(ctx, cdecl, vSpec, iotav, scope)
 	}
 }
 
-func loadConsts(ctx *blockCtx, cdecl *gogen.ConstDefs, v *ast.ValueSpec, iotav int) {
+// scope is the scope the constants are declared in (the one cdecl was created with): a package-level const
+// can be loaded on demand while a function body is being compiled, where cb.Scope() is the function's scope.
+func loadConsts(ctx *blockCtx, cdecl *gogen.ConstDefs, v *ast.ValueSpec, iotav int, scope *types.Scope) {
 	vNames := v.Names
 	names := makeNames(vNames)
 	if v.Values == nil {
@@ -1566,7 +1568,7 @@ func loadConsts(ctx *blockCtx, cdecl *gogen.ConstDefs, v *ast.ValueSpec, iotav i
 			log.Println("==> Load const", names)
 		}
 		cdecl.Next(iotav, v.Pos(), names...)
-		defNames(ctx, vNames, nil)
+		defNames(ctx, vNames, scope)
 		return
 	}
 	var typ types.Type
@@ -1583,7 +1585,7 @@ func loadConsts(ctx *blockCtx, cdecl *gogen.ConstDefs, v *ast.ValueSpec, iotav i
 		return len(v.Values)
 	}
 	cdecl.New(fn, iotav, v.Pos(), typ, names...)
-	defNames(ctx, v.Names, nil)
+	defNames(ctx, v.Names, scope)
 }
 
 func loadVars(ctx *blockCtx, v *ast.ValueSpec, doc *ast.CommentGroup, global bool) {
